@@ -17,7 +17,7 @@ from .common import call
 
 PROP = "C18"
 LEVEL = "exploration"
-CASES = {"quick": 120, "thorough": 5000}
+CASES = {"quick": 120, "thorough": 30000}
 SHARDS = {"quick": 8, "thorough": 16}
 TIMEOUT = {"quick": 300, "thorough": 3400}
 ANCHORS = [
